@@ -61,7 +61,7 @@ def derived_val(d, env):
 def apply_mut(defn, op):
     """the effect of one mutator on the harness' own definition (independent of pygom)"""
     how = op["how"]
-    if how in ("add_event_E", "event_list"):
+    if how in ("add_event_E", "event_list", "event_list_bad_tail"):
         defn["events"].append((op["rate"], op["tr"]))
     elif how in ("add_event_T", "add_transition", "transition_list", "add_birth_death", "birth_death_list"):
         defn["events"].append((op["rate"], [dict(op["tr"][0], mag=1)]))
@@ -78,7 +78,7 @@ def apply_mut(defn, op):
 COQ_MUT = dict(add_event_E="add_event", add_event_T="add_event", add_transition="add_transition",
                add_birth_death="add_birth_death", add_ode="add_ode", param_list="param_list",
                derived_param_list="derived_param_list", transition_list="transition_list", event_list="event_list",
-               birth_death_list="birth_death_list", ode_list="ode_list")
+               birth_death_list="birth_death_list", ode_list="ode_list", event_list_bad_tail="event_list")
 
 
 def new_def(h):
@@ -123,6 +123,12 @@ def do_mut(m, op):
         m.add_event(pg.Event(rate=rate_str(op["rate"]), transition_list=[mk_transition(pg, t) for t in op["tr"]]))
     elif how == "event_list":
         m.event_list = [pg.Event(rate=rate_str(op["rate"]), transition_list=[mk_transition(pg, t) for t in op["tr"]])]
+    elif how == "event_list_bad_tail":
+        # a list whose second element is refused: the assignment raises, the first element has been entered
+        try:
+            m.event_list = [pg.Event(rate=rate_str(op["rate"]), transition_list=[mk_transition(pg, t) for t in op["tr"]]), "junk"]
+        except Exception:       # noqa: BLE001
+            pass
     elif how == "add_event_T":
         m.add_event(mk_transition(pg, dict(op["tr"][0], mag=1), rate_str(op["rate"])))
     elif how == "add_transition":
@@ -442,6 +448,14 @@ def targeted():
                     tr=[dict(tt="T", o="I", d="R", mag=1)]), dict(op="eval", e=e), dict(op="eval", e="ode"), dict(op="eval", e=e),
                     dict(op="set", form="dict", items=[[0, 1.0]]), dict(op="eval", e=e), dict(op="eval", e="ode")]
         out.append(h)
+    # an Event without member transitions (a pure counter: it has a rate, moves nothing), and a list assignment that is refused
+    # at its second element after the first has been entered
+    for extra in (dict(op="mut", how="add_event_E", rate=dict(k="lin", p="p1", X="R", Y="S"), tr=[]),
+                  dict(op="mut", how="event_list_bad_tail", rate=dict(k="lin", p="p1", X="I", Y="R"), tr=[dict(tt="T", o="I", d="R", mag=1)])):
+        out.append(dict(states=list(STATES), params=["p0", "p1"], x=[2.0, 1.5, 0.75],
+                        base=[dict(op="mut", how="add_event_E", rate=dict(k="mass", p="p0", X="S", Y="I"), tr=[dict(tt="T", o="S", d="I", mag=1)])],
+                        ops=[dict(op="set", form="list", vals=[0.5, 0.25])] + [dict(op="eval", e=e) for e in EVALS11] + [extra]
+                            + [dict(op="eval", e=e) for e in EVALS11]))
     # parameter values changed by a few parts in a million, and parameters of magnitude 1e-9: a change is a change
     base1 = [dict(op="mut", how="add_event_E", rate=dict(k="mass", p="p0", X="S", Y="I"), tr=[dict(tt="T", o="S", d="I", mag=1)]),
              dict(op="mut", how="add_ode", o="R", rate=dict(k="lin", p="p1", X="I", Y="S"))]
